@@ -751,8 +751,11 @@ class REPEX_state:
             fracs = [str(i) for i in self.traj_data[key]["frac"]]
             self.config["current"]["frac"][str(key)] = fracs
 
-        with open("./restart.toml", "wb") as f:
+        # write to a temporary name and rename it into place: a crash while
+        # writing must never leave a truncated restart file behind.
+        with open("./restart.toml.tmp", "wb") as f:
             tomli_w.dump(self.config, f)
+        os.replace("./restart.toml.tmp", "./restart.toml")
 
     def write_pattern(self, md_items):
         """Pattern writer."""
